@@ -1,7 +1,7 @@
 (* C08 — property theorems only. mem b i is the abstract set membership (bit i of the word list, words beyond the slice
    reading as 0). Indexes are all i >= 0; negative indexes exit the process in the Go code and are outside the quantifier. *)
-From Coq Require Import ZArith List Bool.
-From Verif Require Import C08.Model C08.Proofs.
+From Coq Require Import ZArith List Bool Lia.
+From Verif Require Import common.Word64Facts C08.Model C08.Proofs C08.Proofs2 C08.Proofs3 C08.Proofs4 C08.Proofs5.
 Import ListNotations.
 Open Scope Z_scope.
 
@@ -41,6 +41,68 @@ Print Assumptions C08_reset_empties.
 Theorem C08_count_unchanged_by_capacity_ops : forall b w, count (trim b) = count b /\ count (ensure b w) = count b.
 Proof. intros b w. split; [exact (count_trim b) | exact (count_ensure b w)]. Qed.
 Print Assumptions C08_count_unchanged_by_capacity_ops.
+
+(* ---- range forms: ranges in either order, inside one word, across words, beyond the capacity ---- *)
+Theorem C08_set_range : forall b s e k, 0 <= s -> 0 <= e -> 0 <= k -> mem (set_range b s e) k = mem b k || in_range (Z.min s e) (Z.max s e) k.
+Proof. exact mem_set_range. Qed.
+Print Assumptions C08_set_range.
+Theorem C08_clear_range : forall b s e k, 0 <= s -> 0 <= e -> 0 <= k -> mem (clear_range b s e) k = mem b k && negb (in_range (Z.min s e) (Z.max s e) k).
+Proof. exact mem_clear_range. Qed.
+Print Assumptions C08_clear_range.
+Theorem C08_flip_range : forall b s e k, 0 <= s -> 0 <= e -> 0 <= k -> mem (flip_range b s e) k = xorb (mem b k) (in_range (Z.min s e) (Z.max s e) k).
+Proof. exact mem_flip_range. Qed.
+Print Assumptions C08_flip_range.
+
+(* ---- every history: State agrees with a mathematical set subjected to the same operations (sstep/srun, Proofs5.v), the words
+   stay 64-bit and the cached count stays the population of the words (Inv) ---- *)
+Theorem C08_history_refines_set : forall ops, Forall op_ok ops ->
+  Inv (run ops) /\ (forall j, 0 <= j -> state (run ops) j = srun ops j).
+Proof. intros ops H. destruct (refines ops H) as [I M]. split; [exact I|]. intros j Hj. rewrite state_mem by exact Hj. apply M. exact Hj. Qed.
+Print Assumptions C08_history_refines_set.
+(* Count is the cardinality: the number of members below 64*N for any N covering the storage, and there is no member above *)
+Theorem C08_count_is_cardinality : forall ops N, Forall op_ok ops -> (length (data (run ops)) <= N)%nat ->
+  count (run ops) = Z.of_nat (length (filter (mem (run ops)) (map Z.of_nat (seq 0 (64 * N)))))%nat /\
+  (forall i, 64 * Z.of_nat N <= i -> mem (run ops) i = false).
+Proof. intros ops N H HN. apply count_card; [exact (proj1 (refines ops H))|exact HN]. Qed.
+Print Assumptions C08_count_is_cardinality.
+
+(* ---- searches: the extreme matching index, or the documented sentinel ---- *)
+Theorem C08_next_set : forall b s, 0 <= s -> let r := next_set b s in
+  (r = -1 /\ forall k, s <= k -> mem b k = false) \/ (s <= r /\ mem b r = true /\ forall k, s <= k < r -> mem b k = false).
+Proof. exact next_set_spec. Qed.
+Print Assumptions C08_next_set.
+Theorem C08_next_clear : forall b s, 0 <= s -> let r := next_clear b s in s <= r /\ mem b r = false /\ forall k, s <= k < r -> mem b k = true.
+Proof. exact next_clear_spec. Qed.
+Print Assumptions C08_next_clear.
+Theorem C08_previous_set : forall b s, 0 <= s -> let r := previous_set b s in
+  (r = -1 /\ forall k, 0 <= k <= s -> mem b k = false) \/ (0 <= r <= s /\ mem b r = true /\ forall k, r < k <= s -> mem b k = false).
+Proof. exact previous_set_spec. Qed.
+Print Assumptions C08_previous_set.
+Theorem C08_previous_clear : forall b s, 0 <= s -> let r := previous_clear b s in
+  (r = -1 /\ forall k, 0 <= k <= s -> mem b k = true) \/ (0 <= r <= s /\ mem b r = false /\ forall k, r < k <= s -> mem b k = true).
+Proof. exact previous_clear_spec. Qed.
+Print Assumptions C08_previous_clear.
+Theorem C08_first_last_set : forall b,
+  (let r := first_set b in (r = -1 /\ forall k, 0 <= k -> mem b k = false) \/ (0 <= r /\ mem b r = true /\ forall k, 0 <= k < r -> mem b k = false)) /\
+  (let r := last_set b in (r = -1 /\ forall k, 0 <= k -> mem b k = false) \/ (0 <= r /\ mem b r = true /\ forall k, r < k -> mem b k = false)).
+Proof. intros b. split; [exact (first_set_spec b)|exact (last_set_spec b)]. Qed.
+Print Assumptions C08_first_last_set.
+
+(* ---- Equal is extensional equality; Load(Data()) reproduces the set; Load builds the set the words denote ---- *)
+Theorem C08_equal_iff_same_members : forall a b, Inv a -> Inv b -> (equal a b = true <-> forall i, 0 <= i -> mem a i = mem b i).
+Proof. exact equal_spec. Qed.
+Print Assumptions C08_equal_iff_same_members.
+Theorem C08_load_data_reproduces : forall b, Inv b -> let b' := load (snd (get_data b)) in
+  Inv b' /\ (forall i, 0 <= i -> mem b' i = mem b i) /\ count b' = count b.
+Proof. exact load_data. Qed.
+Print Assumptions C08_load_data_reproduces.
+Theorem C08_load : forall d, wfd d -> Inv (load d) /\ forall i, 0 <= i -> mem (load d) i = bitat d i.
+Proof. exact load_spec. Qed.
+Print Assumptions C08_load.
+(* non-vacuity: a history with every kind of operation meets op_ok, and its final state is the one computed by the set specification *)
+Example C08_ex_history : let ops := [OSetRange 200 3; OFlipRange 60 70; OClearRange 130 5000; OTrim; OEnsure 9; OFlip 1000; OReload; OClear 1000; OData] in
+  Forall op_ok ops /\ map (state (run ops)) [2; 3; 59; 60; 64; 70; 71; 129; 130; 1000] = map (srun ops) [2; 3; 59; 60; 64; 70; 71; 129; 130; 1000] /\ count (run ops) = 116.
+Proof. cbv zeta. split; [repeat constructor; cbn; lia|]. split; vm_compute; reflexivity. Qed.
 
 (* regression examples: the three histories that failed before the repairs *)
 Example C08_ex_trim : state (trim (ensure (set empty 0) 2)) 0 = true. Proof. reflexivity. Qed.
